@@ -261,4 +261,142 @@ theorem drain_spec (cfg : Cfg) (fixed : Bool) : ∀ (n : Nat) (s : Sys), s.jobs.
         simp only [List.contains_eq_mem, List.mem_append, Bool.decide_or, Bool.not_or]
         exact Bool.and_comm _ _
 
+/-! ### the address arrays behind the batches (`BSys`) -/
+
+/-- the batches a pass hands over are consecutive pieces of a prefix of its sorted-address array -/
+theorem cut_sent_prefix (cfg : Cfg) (fixed : Bool) : ∀ (l : List (Addr × Nat)) (b : List Addr) (bs : Nat) (o : List Bool) (r : Res),
+    ∃ rest, (cut cfg fixed l b bs o r).sent.flatten ++ rest = r.sent.flatten ++ b ++ l.map (·.1) := by
+  intro l
+  induction l with
+  | nil => intro b bs o r; exact ⟨b, by simp [cut]⟩
+  | cons x rest ih =>
+    intro b bs o r
+    obtain ⟨a, sz⟩ := x
+    simp only [cut]
+    split
+    · exact ⟨b ++ a :: rest.map (·.1), by simp⟩
+    · rename_i b' bs' o' r' hpre
+      have h2 : r'.sent.flatten ++ b' = r.sent.flatten ++ b := by
+        split at hpre
+        · split at hpre
+          · simp only [Option.some.injEq, Prod.mk.injEq] at hpre
+            obtain ⟨rfl, _, _, rfl⟩ := hpre
+            simp
+          · simp at hpre
+        · simp only [Option.some.injEq, Prod.mk.injEq] at hpre
+          obtain ⟨rfl, _, _, rfl⟩ := hpre
+          rfl
+      split
+      · split
+        · obtain ⟨rest2, h⟩ := ih [] 0 (takes o').2 { r' with sent := r'.sent ++ [b' ++ [a]] }
+          refine ⟨rest2, ?_⟩
+          rw [h]
+          simp only [List.flatten_append, List.flatten_cons, List.flatten_nil, List.append_nil, List.map_cons]
+          rw [← List.append_assoc r'.sent.flatten, h2]; simp
+        · exact ⟨b' ++ a :: rest.map (·.1), by rw [← List.append_assoc, h2]; simp⟩
+      · obtain ⟨rest2, h⟩ := ih (b' ++ [a]) (bs' + sz) o' r'
+        refine ⟨rest2, ?_⟩
+        rw [h, ← List.append_assoc r'.sent.flatten, h2]; simp
+
+theorem pass_sent_prefix (cfg : Cfg) (fixed : Bool) (cands : List (Addr × Nat)) (o : List Bool) :
+    ∃ rest, (pass cfg fixed cands o).sent.flatten ++ rest = cands.map (·.1) := by
+  obtain ⟨rest, h⟩ := cut_sent_prefix cfg fixed cands [] 0 o {}
+  exact ⟨rest, by simpa [pass] using h⟩
+
+theorem windows_given (id : Nat) : ∀ (bs : List (List Addr)) (lo : Nat), (windows id lo bs).map (·.given) = bs := by
+  intro bs
+  induction bs with
+  | nil => intro lo; rfl
+  | cons b bs ih => intro lo; simp [windows, ih]
+
+/-- each window of the array it was cut from holds exactly its batch -/
+theorem windows_spec (id : Nat) (arr : List Addr) : ∀ (bs : List (List Addr)) (lo : Nat) (rest : List Addr),
+    arr.drop lo = bs.flatten ++ rest →
+    ∀ j ∈ windows id lo bs, j.buf = id ∧ (arr.drop j.lo).take j.given.length = j.given := by
+  intro bs
+  induction bs with
+  | nil => intro lo rest _ j hj; simp [windows] at hj
+  | cons b bs ih =>
+    intro lo rest h j hj
+    simp only [windows, List.mem_cons] at hj
+    rcases hj with rfl | hj
+    · refine ⟨rfl, ?_⟩
+      simp only []
+      rw [h]
+      simp [List.flatten_cons, List.append_assoc]
+    · apply ih (lo + b.length) rest ?_ j hj
+      rw [← List.drop_drop, h]
+      simp [List.flatten_cons, List.append_assoc]
+
+/-- every running job's window still holds what the job was given (and its array exists) -/
+def Views (s : BSys) : Prop := ∀ j ∈ s.jobs, j.buf < s.bufs.length ∧ window s.bufs j = j.given
+
+theorem views_init : Views {} := by intro j hj; simp at hj
+
+theorem map_eraseIdx_given : ∀ (l : List Job) (i : Nat), (l.eraseIdx i).map (·.given) = (l.map (·.given)).eraseIdx i := by
+  intro l
+  induction l with
+  | nil => intro i; rfl
+  | cons x xs ih => intro i; cases i with
+    | zero => rfl
+    | succ n => simp [List.eraseIdx, ih]
+
+theorem getElem?_map_given (jobs : List Job) (i : Nat) : (jobs.map (·.given))[i]? = (jobs[i]?).map (·.given) := by
+  simp
+
+/-- with a fresh array per pass (the code) a step keeps every window intact, and forgetting the arrays gives exactly
+the step of `Sys` -/
+theorem stepB_fresh (cfg : Cfg) (s : BSys) (op : Op) (h : Views s) :
+    Views (stepB cfg false s op) ∧ toSys (stepB cfg false s op) = stepSys cfg true (toSys s) op := by
+  cases op with
+  | put a sz =>
+    by_cases hc : (s.cache.any fun p => p.1 == a) = true
+    · simp only [stepB, stepSys, toSys, hc, if_true]; first | exact ⟨h, rfl⟩ | exact ⟨h, trivial⟩
+    · simp only [stepB, stepSys, toSys, hc, if_false]; first | exact ⟨h, rfl⟩ | exact ⟨h, trivial⟩
+  | pass oracle =>
+    constructor
+    · intro j hj
+      simp only [stepB, Bool.false_eq_true, if_false, List.mem_append] at hj
+      simp only [stepB, Bool.false_eq_true, if_false, List.length_append, List.length_singleton]
+      rcases hj with hj | hj
+      · obtain ⟨h1, h2⟩ := h j hj
+        refine ⟨by omega, ?_⟩
+        rw [← h2]
+        simp only [window, List.getD_eq_getElem?_getD]
+        rw [List.getElem?_append_left h1]
+      · obtain ⟨rest, hp⟩ := pass_sent_prefix cfg true (candidates (toSys s)) oracle
+        have := windows_spec s.bufs.length ((candidates (toSys s)).map (·.1)) _ 0 rest (by simpa using hp.symm) j hj
+        refine ⟨by omega, ?_⟩
+        simp only [window, List.getD_eq_getElem?_getD, this.1]
+        rw [List.getElem?_append_right (Nat.le_refl _)]
+        simpa using this.2
+    · simp only [stepB, stepSys, toSys, Bool.false_eq_true, if_false, List.map_append, windows_given]
+  | finish i ok =>
+    simp only [stepB, stepSys]
+    have hm : (toSys s).jobs[i]? = (s.jobs[i]?).map (·.given) := by simp [toSys]
+    cases hj : s.jobs[i]? with
+    | none =>
+      rw [hm, hj]
+      exact ⟨h, rfl⟩
+    | some j =>
+      rw [hm, hj]
+      simp only [Option.map_some]
+      have hjm : j ∈ s.jobs := List.mem_of_getElem? hj
+      refine ⟨?_, ?_⟩
+      · intro j' hj'
+        exact h j' (List.mem_of_mem_eraseIdx hj')
+      · simp only [toSys, (h j hjm).2, map_eraseIdx_given]
+
+theorem runB_fresh (cfg : Cfg) (ops : List Op) : ∀ (s : BSys), Views s →
+    Views (runB cfg false s ops) ∧ toSys (runB cfg false s ops) = runSys cfg true (toSys s) ops := by
+  induction ops with
+  | nil => intro s h; exact ⟨h, rfl⟩
+  | cons op ops ih =>
+    intro s h
+    have hs := stepB_fresh cfg s op h
+    have := ih _ hs.1
+    simp only [runB, runSys, List.foldl_cons] at this ⊢
+    rw [hs.2] at this
+    exact this
+
 end NeoFS.WCSched
